@@ -172,7 +172,7 @@ def histories(draw):
     n_inst = draw(st.integers(1, 4))
     insts = []
     for i in range(n_inst):
-        D = draw(st.integers(1, 6))
+        D = draw(st.sampled_from([1, 2, 2, 3, 6]))  # few distinct values: several instances of the same D are frequent
         ov = {}
         for nm in draw(st.lists(st.sampled_from(names), max_size=8, unique=True)):
             if nm in CURATED:
@@ -192,7 +192,7 @@ def histories(draw):
                 unknown = None
         insts.append(dict(D=D, overrides=ov, unknown=unknown, no_options=draw(st.sampled_from([False] * 6 + [True])),
                           spelling=draw(st.sampled_from(["a1", "a2"])),
-                          geom=draw(st.sampled_from(["inner", "inner", "tight", "x0_on_bound", "x0_outside_plausible", "near_margin", "log"]))))
+                          geom=draw(st.sampled_from(["inner", "inner", "tight", "x0_on_bound", "x0_outside_plausible", "near_margin", "log", "log_inner"]))))
     # operation order: construct each instance once, run some of them, in a generated interleaving
     ops = []
     for i in range(n_inst):
@@ -265,6 +265,9 @@ def run_history(case):
             elif geom == "near_margin":
                 plb, pub = lb + 1e-4, ub - 1e-4
                 x0 = ub - 1e-5
+            elif geom == "log_inner":
+                lb, ub = np.full(shape, 0.01), np.full(shape, 100.0)
+                plb, pub, x0 = np.full(shape, 0.5), np.full(shape, 50.0), np.full(shape, 2.0)
             elif geom == "log":
                 lb, ub = np.full(shape, 0.01), np.full(shape, 1000.0)
                 plb, pub, x0 = np.full(shape, 0.01), np.full(shape, 100.0), np.full(shape, 0.01)
